@@ -401,12 +401,53 @@ class Evaluator:
         return self.call_body(b, [Ref(clo)] + list(args), depth + 1)
 
     # -- partial evaluation: which paths are consistent with a class representative ----------
+    def _assert_switches(self, body):
+        """switch blocks whose one arm leads (through straight-line blocks) to an assertion-failure call"""
+        cache = self.__dict__.setdefault("_asw", {})
+        if body.id in cache:
+            return cache[body.id]
+        out = set()
+        targets = set()
+        for bb, t in body.calls():
+            from mir import callee_names as _cn
+            nm = _cn(t)[1] or _cn(t)[0] or ""
+            if not nm.startswith("core::panicking"):
+                continue
+            is_assert = nm.endswith("assert_failed") or any(
+                x[0] == "const" and isinstance(x[1], str) and x[1].startswith("assertion") for a_ in t["args"] for x in walk(body.term_of_operand(a_)))
+            if is_assert:
+                targets.add(bb)
+        for tb in targets:
+            front = {tb}
+            for _ in range(5):
+                prev = set(bi for bi in range(len(body.blocks)) if set(body.succs(bi)) & front and not body.blocks[bi]["cleanup"])
+                sw = [bi for bi in prev if body.blocks[bi]["term"]["k"] == "switch"]
+                if sw:
+                    out |= set(sw)
+                    break
+                front = prev
+        # the blocks that compute an asserted condition (straight-line predecessors of its test): an arithmetic
+        # check inside them belongs to the stated invariant as well
+        pre = set(out)
+        for sw_ in list(out):
+            x = sw_
+            for _ in range(4):
+                ps = [bi for bi in range(len(body.blocks)) if x in body.succs(bi) and not body.blocks[bi]["cleanup"]]
+                if len(ps) != 1 or body.blocks[ps[0]]["term"]["k"] not in ("assert", "goto", "call") or len(body.succs(ps[0])) != 1:
+                    break
+                x = ps[0]
+                pre.add(x)
+        self.__dict__.setdefault("_aswpre", {})[body.id] = pre
+        cache[body.id] = out
+        return out
+
     def outcomes(self, body, args):
         """Evaluate the branch conditions and asserts of every path of `body` at the given
         argument values.  Conditions that depend on opaque values are 'maybe'.  Returns a list
         of dicts {path, definite, panic, env}: the paths not refuted at this representative."""
         env0 = {("p", i + 1): a for i, a in enumerate(args)}
         res = []
+        asw = self._assert_switches(body)
         for p in self.summary(body):
             env = dict(env0)
             order = {bb: i for i, bb in enumerate(p.blocks)}
@@ -425,6 +466,11 @@ class Evaluator:
             for _, kind, it in items:
                 if kind == 1:
                     bb, term, vals, neg, dty = it
+                    if bb in asw:
+                        # the test of an assert!/debug_assert!: a stated invariant, possibly about state this evaluator
+                        # does not update (values after a mutation) -- neither branch is refuted
+                        definite = False
+                        continue
                     try:
                         v = self.ev(term, env, body, 0)
                     except Unknown as u:
@@ -444,6 +490,8 @@ class Evaluator:
                     if e["k"] == "assert":
                         if e["kind"] in ("Misaligned", "NullPtr"):
                             continue
+                        if e.get("bb") in self.__dict__.get("_aswpre", {}).get(body.id, ()):
+                            continue
                         try:
                             c = self.ev(e["cond"], env, body, 0)
                         except Unknown:
@@ -455,7 +503,10 @@ class Evaluator:
                             panic = "%s %s at %s:%s" % (e["kind"], e.get("op") or "", body.file, e["line"])
                             break
                     else:
-                        panic = "explicit panic at %s:%s" % (body.file, e["line"])
+                        # assert!/debug_assert! (a stated invariant) is told apart from panic!/todo!/unreachable!
+                        is_assert = (e.get("callee") or "").endswith("assert_failed") or any(
+                            x[0] == "const" and isinstance(x[1], str) and x[1].startswith("assertion") for a_ in (e.get("args") or []) for x in walk(a_))
+                        panic = "explicit panic%s at %s:%s" % (" (assertion)" if is_assert else "", body.file, e["line"])
                         break
             if refuted:
                 continue
